@@ -212,6 +212,12 @@ class Engine(_Base, ExprMixin, CallMixin, StmtMixin):
             arr = z3.Const(fresh_name('carr'), z3.ArraySort(I, sort_of(ety)))
             s0.assume(n >= 0)
             self.list_store(s0, l, n, arr)
+            if hints.get('exact_map') and isinstance(it, VSeq) and hasattr(v, 't') and not isinstance(v, VEnum):
+                # a filtered / rebuilt comprehension over a sequence: every item of the result is the element expression at some
+                # source index that passes the filter (order and multiplicity stay unmodelled)
+                i = z3.Int(fresh_name('ci'))
+                s0.assume(z3.ForAll([i], z3.Implies(z3.And(0 <= i, i < n),
+                                                    z3.Exists([j], z3.And(0 <= j, j < it.len, z3.Select(arr, i) == to_term(v), *conds)))))
             if member is not None and isinstance(e.elt, ast.Name) and isinstance(comp.target, ast.Name) and e.elt.id == comp.target.id and it.mode == 'keys':
                 i = z3.Int(fresh_name('ci'))
                 elem = z3.Select(arr, i)
@@ -253,6 +259,15 @@ class Engine(_Base, ExprMixin, CallMixin, StmtMixin):
         if isinstance(v, VEnum) or not hasattr(v, 't'):
             self.unsupported(e, 'exact_map comprehension element %r' % (v,))
         conds = s.pc[npc:]
+        new_events = s.log[len(s0.log):]
+        if new_events:
+            # ghost events of the element expression (calls of opaque callbacks, logged externals): they happen once per index, in
+            # order; recorded as one quantified event (index variable, length, the events of the arbitrary index)
+            s0.log.append(('forall', j, it.len, tuple(new_events)))
+        if isinstance(v, VNone):
+            s0.assume(*[z3.ForAll([j], z3.Implies(z3.And(0 <= j, j < it.len), c)) for c in conds])
+            res.append((s0, VNone()))       # a list of Nones: only built for its effects (the callers here discard it)
+            return res
         ety = v.ty
         i = z3.Int(fresh_name('mi'))
         arr = z3.Const(fresh_name('marr'), z3.ArraySort(I, sort_of(ety)))
